@@ -78,6 +78,15 @@ INFO = {
  'C05-m6': ("two cooperating edits: getAsync's result channel unbuffered; Get bails out early if its ctx is cancelled before it parks", 'cancellation between the synchronous miss and the park: the sender goroutine blocks forever holding the buffer lock (everything wedges later)'),
  'C06-m5': ("Send skips the acknowledgement wait when exactly one subscriber received ('for sent > 1 && pongN != 0')", 'a lone slow subscriber, then a newcomer before its Wait, then the next Send: the leftover pong lets the newcomer receive twice'),
 
+ 'C09-m5': ("the nested 'already complete' check collapsed to 'if item.complete && outcome != nil'", 'a Start that owns a waiter goroutine wakes on a batch another waiter already ran: it claims the completed item again and runs the work a second time, forking the chain'),
+ 'C09-m6': ("ExclusiveRateLimit runs the work in a goroutine and returns on context cancellation", "the limiter's context cancelled while the work is in flight, followed by a call on the key that is not gated by that context: the user's work functions overlap"),
+ 'C12-m5': ("two cooperating edits: getAsync no longer waits on the buffer's context and Buffer.get no longer reports it; consumer.Get no longer passes the consumer's context", 'Buffer.Close while a Get whose own context is never cancelled is blocked: nothing wakes it, Close never returns'),
+ 'C13-m5': ("Channel.Get checks for a pending replay once at entry instead of on every poll iteration", 'a Rollback by another goroutine while a Get polls an empty source, then a fresh value: it is returned ahead of the replay and later replays are shifted'),
+ 'C13-m6': ("Channel.Commit compacts the remainder to the front and then clears the committed slots", 'Rollback, partial re-read, Commit covering more values than remain to be replayed: the moved values are nil-ed'),
+ 'C14-m5': ("two cooperating edits: Wait caches the cond once; the last idle worker resets w.cond/w.queue to nil", 'a goroutine parked in Wait, the pool going idle, and a new Call winning the mutex: the waiter re-parks on an orphaned cond forever'),
+ 'C14-m6': ("the idle worker uses cond.Signal instead of Broadcast", 'two or more goroutines parked in Wait when the pool drains: only one returns'),
+ 'C17-m5': ("do() reads its stop/done channels under the Worker mutex", 'the only holder calls done before the instance goroutine took its first step: the watcher holds the mutex waiting for an instance that can never start'),
+
 }
 
 def main():
